@@ -61,6 +61,15 @@ var Meta = map[string]PropMeta{
 		Quick:     q(150, 60*time.Second),
 		Thorough:  q(6000, 25*time.Minute),
 	},
+	"C09": {
+		Level:     "exploration",
+		Technique: "deterministic simulation: real client and daemon over the scheduled transport in pull, push and local arrangements; seeded generation of source/destination tree pairs with extraneous entries in every sort position; reference-model oracle on the final entry set; sender-disk fault (directory listing error) raises the I/O-error flag",
+		Rule:      "recursive sync of a directory's contents with --delete (control: without), destination holds 0..6 extraneous files/directories/symlinks/fifos per run at names sorting before, between and after the listed ones, nested, optionally an --exclude rule naming a destination entry. Oracle: listed entries never removed; without --delete or with the sender's I/O-error flag raised (simulated ReadDir failure) nothing removed; with --delete every extraneous entry not protected by an exclude rule is gone and every protected one is kept. Non-trivial = --delete with >= 2 extraneous entries",
+		Assumptions: []string{"model of exclude-rule protection: an entry is protected iff it or a parent matches an exclude rule (rsync semantics without --delete-excluded)"},
+		Real:      realCommon, Stub: append([]string{"sender disk (I/O error runs): simfs"}, stubCommon...),
+		Quick:     q(400, 50*time.Second),
+		Thorough:  q(20000, 15*time.Minute),
+	},
 	"C16": {
 		Level:     "exploration",
 		Technique: "deterministic simulation + wire-history monitor: literal bytes and block references counted in the real sender's token stream (decoded by the reference protocol-27 parser), with the real generator's signatures and with reference signatures at other block sizes; chunked scheduled transport and short-reading simulated disk",
